@@ -127,6 +127,33 @@ def analyse_memo(R, f, spec):
     else:
         R.holds('R-MEMO', q, f'memo `{memo}`: read key == written key '
                 f'({sorted(wkeys)})')
+    # (1b) the key is an injective function of the arguments: a plain
+    # name / tuple / abs() / int() / str(); a conditional, sorted or
+    # set-valued key identifies different argument tuples
+    for w in writes:
+        k = w.slice
+        kk = k
+        if isinstance(k, ast.Name):
+            defs = [x for x in au.walk_no_defs(fn)
+                    if isinstance(x, ast.Assign) and len(x.targets) == 1
+                    and au.is_name(x.targets[0], k.id)]
+            if len(defs) == 1:
+                kk = defs[0].value
+        lossy = [x for x in ast.walk(kk) if isinstance(
+            x, (ast.IfExp, ast.Set, ast.SetComp)) or (
+                isinstance(x, ast.Call) and au.call_name(x) in (
+                    'sorted', 'frozenset', 'set', 'min', 'max'))]
+        if lossy:
+            R.violation(
+                'R-MEMO', 'key-not-injective', q, memo,
+                f'the memo key `{au.short(kk, 60)}` maps different '
+                'argument tuples to one entry (it orders or merges the '
+                f'arguments); the arguments of {f.name} play different '
+                'roles, so a hit returns the result of another call',
+                unit=f.unit.rel, line=kk.lineno)
+        else:
+            R.holds('R-MEMO', q, 'the memo key is an injective function '
+                    'of the arguments', nontrivial=False)
     # (2) the key covers every parameter that varies in the recursion
     params = [a.arg for a in fn.args.args]
     varying = set()
@@ -389,6 +416,7 @@ def top_index(fn, node):
 
 def r_inval(P, R):
     classes = {'C01': [('dd.bdd', 'BDD')], 'C06': [('dd.bdd', 'BDD')],
+               'C02': [('dd.bdd', 'BDD')], 'C08': [('dd.bdd', 'BDD')],
                'C07': [('dd.bdd', 'BDD')], 'C14': [('dd.bdd', 'BDD')],
                'C15': [('dd.mdd', 'MDD')]}.get(R.prop, [])
     populating = {'ite', '_ite', 'apply', 'cube', 'compose', 'rename',
@@ -462,7 +490,8 @@ def r_inval(P, R):
                     unit=f.unit.rel, line=after[0].lineno)
                 continue
             R.holds('R-INVAL', f.qualname, what)
-    floor = {'C01': 3, 'C06': 3, 'C07': 1, 'C14': 1, 'C15': 1}.get(
+    floor = {'C01': 3, 'C06': 3, 'C02': 3, 'C08': 3, 'C07': 1, 'C14': 1,
+             'C15': 1}.get(
         R.prop, 0)
     R.floor(f'R-INVAL destructive writers for {R.prop}', n, floor)
 r_inval.NAME = 'R-INVAL'
